@@ -20,11 +20,13 @@ BASES = {
     "prejoined_parent": "Child: already joined on the to-one `parent` (a relationship navigation filters use)",
     "prejoined_owner": "Child: already joined on the to-one `owner` (a relationship the filter may not use)",
 }
-VALUE_COL = {"Parent": "n", "Child": "k", "Item": "n"}
+VALUE_COL = {"Parent": "n", "Child": "k", "Item": "n", "Ticket": "n"}
 
 
 def available(backend: str, model: str) -> list:
     common = [None, "prefiltered", "ordered", "annotated"]
+    if model == "Ticket":             # second schema: SQLAlchemy ORM only
+        return common + ["prejoined_owner"] if backend in ("sa_select", "sa_query") else []
     if backend == "sa_core":
         return common + (["prefiltered2"] if model == "Parent" else [])
     if backend == "django":
